@@ -601,6 +601,8 @@ class SymEval:
     def apply(self, clo, args):
         if isinstance(clo, tuple) and clo[0] == "compose":
             return self.apply(clo[2], [self.apply(clo[1], args)])
+        if isinstance(clo, tuple) and clo[0] == "enum" and not clo[2]:
+            return ("enum", clo[1], list(args))          # a tuple-variant constructor used as a function
         if isinstance(clo, tuple) and clo[0] == "fnref":
             r = self.h.call(clo[1], args, None)
             if r is NotImplemented:
@@ -656,10 +658,27 @@ class SymEval:
         if isinstance(recv, tuple) and recv[0] == "list":
             items = recv[1]
             name = path_of(e[1])
-            if m in ("push", "extend", "append") and name is not None and name in env:
-                if m == "push":
-                    env[name] = ("list", items + [args[0]])
-                else:
+            if m == "extend_from_slice":
+                m = "extend"
+            if m in ("push", "extend", "append", "insert", "clear", "pop", "truncate") and isinstance(items, list):
+                # Vec values are shared mutable objects (a `&mut` alias sees the change); clone()/to_vec()/collect() copy
+                if m == "push" and len(args) == 1:
+                    items.append(args[0])
+                    return UNIT
+                if m == "insert" and len(args) == 2 and isinstance(args[0], int):
+                    if args[0] > len(items):
+                        raise Panic("insert at %d beyond the length %d" % (args[0], len(items)))
+                    items.insert(args[0], args[1])
+                    return UNIT
+                if m == "clear" and not args:
+                    del items[:]
+                    return UNIT
+                if m == "pop" and not args:
+                    return ("some", items.pop()) if items else NONE
+                if m == "truncate" and len(args) == 1 and isinstance(args[0], int):
+                    del items[args[0]:]
+                    return UNIT
+                if m in ("extend", "append") and len(args) == 1:
                     a0 = args[0]
                     if a0 == NONE:
                         add = []
@@ -667,10 +686,14 @@ class SymEval:
                         add = [a0[1]]
                     elif isinstance(a0, tuple) and a0[0] == "list":
                         add = list(a0[1])
+                        if m == "append" and isinstance(a0[1], list):
+                            del a0[1][:]
+                    elif isinstance(a0, tuple) and a0[0] == "lazy":
+                        add = list(LazyItems(self, a0))
                     else:
                         self.fail("extend with a non-list", e)
-                    env[name] = ("list", items + add)
-                return UNIT
+                    items.extend(add)
+                    return UNIT
             if m == "for_each" and len(args) == 1:
                 for x in items:
                     self.apply(args[0], [x])
@@ -680,7 +703,9 @@ class SymEval:
                 return errs[0] if errs else ("ok", ("list", [x[1] for x in items]))
             if m == "step_by" and len(args) == 1 and isinstance(args[0], int) and args[0] > 0:
                 return ("list", items[::args[0]])
-            if m in ("iter", "iter_mut", "into_iter", "collect", "as_slice", "to_vec", "cloned", "copied", "as_ref", "peekable", "by_ref", "fuse"):
+            if m in ("to_vec", "clone", "to_owned", "collect"):
+                return ("list", list(items))
+            if m in ("iter", "iter_mut", "into_iter", "as_slice", "as_mut_slice", "cloned", "copied", "as_ref", "as_mut", "peekable", "by_ref", "fuse"):
                 return recv
             if m == "peek" and not args:
                 return ("some", items[0]) if items else NONE
@@ -740,7 +765,35 @@ class SymEval:
             if m == "skip" and isinstance(args[0], int):
                 return ("list", items[args[0]:])
             if m == "chain" and isinstance(args[0], tuple) and args[0][0] == "list":
-                return ("list", items + list(args[0][1]))
+                return ("list", list(items) + list(args[0][1]))
+            if m == "chain" and (args[0] == NONE or (isinstance(args[0], tuple) and args[0][0] == "some")):
+                return ("list", list(items) + ([args[0][1]] if args[0] != NONE else []))
+        if isinstance(recv, tuple) and recv and recv[0] == "map" and isinstance(recv[1], dict):
+            d = recv[1]
+
+            def key(k):
+                try:
+                    hash(k)
+                    return k
+                except TypeError:
+                    return repr(k)
+            if m in ("get", "get_mut") and len(args) == 1:
+                return ("some", d[key(args[0])]) if key(args[0]) in d else NONE
+            if m == "contains_key" and len(args) == 1:
+                return key(args[0]) in d
+            if m == "insert" and len(args) == 2:
+                old = ("some", d[key(args[0])]) if key(args[0]) in d else NONE
+                d[key(args[0])] = args[1]
+                return old
+            if m == "remove" and len(args) == 1:
+                return ("some", d.pop(key(args[0]))) if key(args[0]) in d else NONE
+            if m == "len" and not args:
+                return len(d)
+            if m == "is_empty" and not args:
+                return not d
+            if m == "clear" and not args:
+                d.clear()
+                return UNIT
         # Option / Result combinators
         if recv == NONE or (isinstance(recv, tuple) and recv[0] == "some"):
             some = recv[0] == "some"
@@ -766,8 +819,10 @@ class SymEval:
                 return some
             if m == "is_none":
                 return not some
-            if m in ("as_ref", "as_mut", "cloned", "copied", "iter", "as_deref"):
+            if m in ("as_ref", "as_mut", "cloned", "copied", "as_deref"):
                 return recv
+            if m == "iter":
+                return ("list", [recv[1]] if some else [])
             if m == "map":
                 return ("some", self.apply(args[0], [recv[1]])) if some else NONE
             if m == "and_then":
@@ -776,6 +831,24 @@ class SymEval:
                 return ("ok", recv[1]) if some else ("err", args[0])
             if m == "unwrap_or":
                 return recv[1] if some else args[0]
+            if m == "unwrap_or_else":
+                return recv[1] if some else self.apply(args[0], [])
+            if m == "unwrap_or_default" and some:
+                return recv[1]
+            if m == "ok_or_else":
+                return ("ok", recv[1]) if some else ("err", self.apply(args[0], []))
+            if m == "or":
+                return recv if some else args[0]
+            if m == "or_else":
+                return recv if some else self.apply(args[0], [])
+            if m == "map_or_else":
+                return self.apply(args[1], [recv[1]]) if some else self.apply(args[0], [])
+            if m in ("is_some_and", "is_none_or"):
+                if not some:
+                    return m == "is_none_or"
+                return self.apply(args[0], [recv[1]])
+            if m == "into_iter" or m == "iter_mut":
+                return ("list", [recv[1]] if some else [])
             if m in ("unwrap", "expect"):
                 if not some:
                     raise Panic("%s on None" % m)
@@ -803,6 +876,16 @@ class SymEval:
                 return recv[1]
             if m == "map_err":
                 return recv if ok else ("err", self.apply(args[0], [recv[1]]))
+            if m == "and_then":
+                return self.apply(args[0], [recv[1]]) if ok else recv
+            if m == "or_else":
+                return recv if ok else self.apply(args[0], [recv[1]])
+            if m == "unwrap_or":
+                return recv[1] if ok else args[0]
+            if m == "unwrap_or_else":
+                return recv[1] if ok else self.apply(args[0], [recv[1]])
+            if m == "err":
+                return NONE if ok else ("some", recv[1])
             if m == "map":
                 return ("ok", self.apply(args[0], [recv[1]])) if ok else recv
         if isinstance(recv, tuple) and recv[0] == "chunks":
@@ -913,6 +996,31 @@ class SymEval:
                 if r is None:
                     res = None
             return res
+        if k == "p_struct":
+            if isinstance(v, tuple) and v and v[0] == "struct":
+                res = True
+                for fld, sub in pat[2]:
+                    if fld not in v[2]:
+                        return None
+                    r = self.match_pat(sub, v[2][fld], env)
+                    if r is False:
+                        return False
+                    if r is None:
+                        res = None
+                return res
+            if isinstance(v, tuple) and v and v[0] == "enum" and isinstance(v[2], dict):
+                if v[1].split("::")[-1] != pat[1].split("::")[-1]:
+                    return False
+                res = True
+                for fld, sub in pat[2]:
+                    r = self.match_pat(sub, v[2].get(fld), env) if fld in v[2] else None
+                    if r is False:
+                        return False
+                    if r is None:
+                        res = None
+                return res
+            r = self.h.match_ts(v, pat, env, self)
+            return None if r is NotImplemented else r
         if k == "p_path":
             name = "::".join(pat[1].split("::")[-2:])
             if pat[1].split("::")[-1] == "None":
